@@ -56,3 +56,11 @@ Lemma indexed_name_breaks_roundtrip :
   wf_requestb unit r = true /\
   u_from_uri (u_to_uri r) = Ok [(0, mkPayment tt None None None None []); (1, mkPayment tt None None None None [([97], [120])])].
 Proof. vm_compute. repeat split. Qed.
+
+Lemma new_refuses_reserved_names :
+  request_new unit u_dec u_enc u_true u_false [mkPayment tt (Some COIN) None None None [(s_label, [120])]] = Err EParse /\
+  request_new unit u_dec u_enc u_true u_false
+    [mkPayment tt None None None None [([97; 46; 49], [120])]; mkPayment tt None None None None []] = Err EParse /\
+  request_new unit u_dec u_enc u_true u_false [mkPayment tt (Some COIN) None (Some [120]) None [([97], [120])]]
+    = Ok [(0, mkPayment tt (Some COIN) None (Some [120]) None [([97], [120])])].
+Proof. vm_compute. repeat split. Qed.
